@@ -509,3 +509,48 @@ func SecondRouteModels() []Tagged {
 	}
 	return out
 }
+
+// RenameSchemes: names a sloppy string operation inside the graph code could trip over. "R-prefix": every name begins with
+// the letter of the builder's internal cycle-placeholder prefix "R#" (a TrimLeft with that cutset eats into the name);
+// "operator-words": types and relations called union / intersection / exclusion (the display labels of operator nodes);
+// "separators": extended identifiers with '.', '/', '-', '_' and a digit first.
+var RenameSchemes = []struct {
+	Tag string
+	F   func(kind, name string) string
+}{
+	{"R-prefix", func(kind, name string) string {
+		if kind == "condition" {
+			return name
+		}
+		return "R" + name
+	}},
+	{"operator-words", func(kind, name string) string {
+		w := map[string]string{"doc": "union", "folder": "intersection", "group": "exclusion", "a": "union", "b": "exclusion", "c": "intersection", "p": "this"}
+		if kind != "condition" {
+			if v, ok := w[name]; ok {
+				return v
+			}
+		}
+		return name
+	}},
+	{"separators", func(kind, name string) string {
+		w := map[string]string{"doc": "doc.x/y-z", "folder": "folder_1", "group": "9group", "a": "a.b", "b": "a-b", "c": "a/b", "p": "a_b"}
+		if kind != "condition" {
+			if v, ok := w[name]; ok {
+				return v
+			}
+		}
+		return name
+	}},
+}
+
+// Renamed returns the models under every rename scheme.
+func Renamed(ms []Tagged) []Tagged {
+	var out []Tagged
+	for _, sc := range RenameSchemes {
+		for _, tm := range ms {
+			out = append(out, Tagged{Tag: "renamed(" + sc.Tag + "): " + tm.Tag, M: ref.Rename(tm.M, sc.F)})
+		}
+	}
+	return out
+}
